@@ -361,7 +361,7 @@ def harnesses(tier):
     nmax = 5 if q else 7
     nbits = 5 if q else 7
     nmax_unif = 4 if q else 6
-    shapes = [v for n in range(2, nmax + 1) for v in tg.all_parent_vectors(n)
+    shapes = [v for n in range(2, nmax + 1) for v in tg.ordered_representatives(tg.all_parent_vectors(n))
               if tg.shape_ok(v, min_leaves=2, max_leaves=(4 if q else 5), allow_unifurcations=(n <= nmax_unif))]
     shapes_nounif = [v for v in shapes if tg.shape_ok(v, allow_unifurcations=False, min_leaves=3)]
     common = dict(functions=["Tree.encode_bipartitions", "Bipartition.compile_split_bitmask", "Bipartition.normalize_bitmask",
